@@ -56,6 +56,8 @@ def episodes(prop, tier, seed):
         out["regimes"] = (g.regime_functions(seed + 3, REGIME_Q if q else REGIME_T, per_size=1 if q else 7), "verif")
         out["peelers"] = (g.peelers(seed + 7, sizes=(800001,) if q else (800001, 1000000, 2000000, 20000001)), "verif")
         out["mwhc-shards"] = (g.mwhc_shards(seed + 9, sizes=(200000,) if q else (200000, 1000000, 3000000)), "verif")
+        out["sharded"] = (g.sharded_logics(seed + 11, "func", sizes=(100000,) if q else (100000, 120000, 199999)), "verif")
+        out["retry"] = (g.retry_recipes(seed + 12, "func", sizes=(200000,) if q else (200000, 400000), per_size=1 if q else 3), "verif")
         if not q:
             out["small-release"] = (g.small_n_functions(seed + 4, 300), "release")
             out["regimes-release"] = (g.regime_functions(seed + 5, REGIME_T, per_size=3), "release")
@@ -69,6 +71,8 @@ def episodes(prop, tier, seed):
         out["combos"] = (g.every_combo(seed + 2, sizes=(0, 1, 3, 100, 101, 1000), kinds=("filter",)), "verif")
         out["regimes"] = (g.regime_filters(seed + 3, REGIME_Q if q else REGIME_T), "verif")
         out["peelers"] = (g.peelers(seed + 6, sizes=(800001,) if q else (800001, 1000000, 20000001)), "verif")
+        out["sharded"] = (g.sharded_logics(seed + 11, "filter", sizes=(100000,) if q else (100000, 120000, 199999)), "verif")
+        out["retry"] = (g.retry_recipes(seed + 12, "filter", sizes=(200000,) if q else (200000, 400000), per_size=2 if q else 3), "verif")
         if not q:
             out["widths-release"] = (g.filter_widths(seed + 4, sizes=(3, 1000, 100000), max_probe_bits=16), "release")
             out["regimes-release"] = (g.regime_filters(seed + 5, REGIME_T), "release")
@@ -76,6 +80,9 @@ def episodes(prop, tier, seed):
         out["faults"] = (g.c17_faults(seed, nmax=12, stride=3 if q else 1), "verif")
         out["dups"] = (g.c17_duplicates(seed + 1, big=10000, thin=q), "verif")
         out["big-faults"] = (g.c17_big_faults(seed + 2, n=100000 if q else 200000), "verif")
+        out["sharded-dups"] = (g.c17_sharded_dups(seed + 5, big=() if q else (800000,)), "verif")
+        out["dup-ranks"] = (g.c17_dup_ranks(seed + 6, thin=q), "verif")
+        out["line-faults"] = (g.c17_line_faults(seed + 7, thin=q), "verif")
         if not q:
             out["faults-release"] = (g.c17_faults(seed + 3, nmax=12, stride=2), "release")
             out["dups-release"] = (g.c17_duplicates(seed + 4, big=10000, thin=True), "release")
